@@ -299,7 +299,20 @@ func (t *codeTee) Write(p []byte) (int, error) {
 		}
 	}
 	t.mu.Unlock()
+	if len(p) == 0 {
+		return 0, nil // a zero-length write on a net.Pipe would block until the peer reads (a socket returns at once)
+	}
 	return t.Conn.Write(p)
+}
+
+// nzConn drops zero-length writes (net.Pipe artefact, see above).
+type nzConn struct{ net.Conn }
+
+func (c nzConn) Write(p []byte) (int, error) {
+	if len(p) == 0 {
+		return 0, nil
+	}
+	return c.Conn.Write(p)
 }
 func (t *codeTee) take() []int {
 	t.mu.Lock()
@@ -337,7 +350,7 @@ func newPair(served YubiAgent) *rPair {
 				p.mu.Unlock()
 			}
 		}()
-		e := ServeAgent(served, c2)
+		e := ServeAgent(served, nzConn{c2})
 		p.mu.Lock()
 		p.err = e
 		p.mu.Unlock()
@@ -1055,17 +1068,20 @@ func (t *twin) realOp(r *mrand.Rand, op string) (lab rLabel, vr string) {
 			ce, de = e1, e2
 			lab.Reseq = keysEq(x, y)
 		case "signers":
+			// the agent protocol has no "signers" request: the client builds its signers from a list request, so
+			// the reference is the served agent's List (AgentWire: MethodOf["signers"] = "List")
 			x, e1 := cl.Signers()
-			y, e2 := d.Signers()
+			y, e2 := d.List()
 			ce, de = e1, e2
-			f := func(ss []ssh.Signer) []*agent.Key {
-				o := []*agent.Key{}
-				for _, s := range ss {
-					o = append(o, &agent.Key{Format: s.PublicKey().Type(), Blob: s.PublicKey().Marshal()})
-				}
-				return o
+			got := []*agent.Key{}
+			for _, s := range x {
+				got = append(got, &agent.Key{Format: s.PublicKey().Type(), Blob: s.PublicKey().Marshal()})
 			}
-			lab.Reseq = keysEq(f(x), f(y))
+			exp := []*agent.Key{}
+			for _, k := range y {
+				exp = append(exp, &agent.Key{Format: k.Format, Blob: k.Blob})
+			}
+			lab.Reseq = keysEq(got, exp)
 		case "sign":
 			key := pickPub()
 			data := rndBytes(r, rndSize(r, 65536))
